@@ -519,8 +519,16 @@ def op_f2x(M, ch, tr, st, rng, s, where):
     if ch.flip(1, 3, "f2x_phi_partition"):
         phi = np.eye(n)[rng.permutation(n)[:p]]
         p = phi.shape[0]
+    # the caller may keep ONE phi array and overwrite it in place between requests
+    buf = getattr(s, "phibuf", None)
+    if buf is not None and buf.shape == phi.shape and ch.flip(1, 2, "f2x_phi_buffer_reused"):
+        buf[...] = phi
+        arg = buf
+        st.fault("f2x_phi_buffer_reused")
+    else:
+        arg = s.phibuf = phi.copy()
     with _Sut("get_f2x", session=s.id, solver=where):
-        flex = s.ts.get_f2x(phi.copy(), velo)
+        flex = s.ts.get_f2x(arg, velo)
     u = rng.standard_normal(p)
     fa = phi.T @ u
     arr = s.v if velo else s.d
@@ -755,5 +763,5 @@ EXPECTED_FAULTS = [
     "redo_same_force", "redo_new_force", "jump_back_1", "jump_back_far", "addon", "addon_then_advance", "addon_then_redo",
     "redo_then_advance", "addon_order0", "buffer_reuse", "closed_loop_force", "two_sessions_interleaved", "nt_1", "rf_only",
     "rb_only", "static_ic", "complex_coefficients", "f2x_probe", "addon_twice", "instance_reused", "same_instance_tsolve",
-    "same_instance_fsolve", "long_session", "force_int", "resend_stored_force", "deep_run",
+    "same_instance_fsolve", "long_session", "force_int", "resend_stored_force", "deep_run", "f2x_phi_buffer_reused",
 ]
